@@ -125,5 +125,12 @@ instance (w : Int) : Decidable (WallYear0to9999 w) := by unfold WallYear0to9999;
 def keptNanos (sf : Format.SecondsFormat) (n : Nat) : Nat :=
   (wantedFrac sf n).2 * 10 ^ (9 - (wantedFrac sf n).1)
 
+/-- the value `z` with its sub-second part truncated to the precision `sf`; a leap-second
+representation stays one (the `10⁹` flag of the nanosecond field is kept) -/
+def truncatedTo (sf : Format.SecondsFormat) (z : Zoned) : Zoned :=
+  ⟨⟨z.utc.date, ⟨z.utc.time.secs,
+    (if z.utc.time.frac ≥ 1000000000 then 1000000000 else 0) +
+      (keptNanos sf (z.utc.time.frac % 1000000000).toNat : Int)⟩⟩, z.off⟩
+
 end Rfc3339
 end Chrono.Spec
